@@ -5,6 +5,8 @@ import FormulaicVerif.Proofs.C15Ws
 import FormulaicVerif.Proofs.C15Text
 import FormulaicVerif.Proofs.C15Kinds
 import FormulaicVerif.Proofs.C15Quote
+import FormulaicVerif.Proofs.C15Call
+import FormulaicVerif.Proofs.C15Exact
 /-! # C15 — Lexing is whitespace-insensitive, quote-faithful and normalises Python code
 
 Property theorems only (helpers: `Proofs/C15.lean`), about `Model.tokenize`/`Model.lexStep`, the
@@ -27,8 +29,18 @@ that is the quote character that opened the token) and `tokens_have_kinds` (ever
 kind and a non-empty text). `quoted_verbatim`/`brace_verbatim`: `{body}`, `` `body` `` and `%body%`
 are ONE token with the body verbatim whenever the body leaves the quote stack as it found it.
 
-FULL (unproved): `call_verbatim` (`f(…)` at top level) — covered by the correspondence and the
-span/verbatim oracles only.
+`call_verbatim` (`Proofs/C15Call.lean`): a call-style fragment at top level — a run of word characters
+that is not a number, directly followed by `(body)` or `[body]` whose body leaves the quote stack as it
+found it — is ONE python token with the text verbatim and the span of the fragment; so is a chain
+`name(…)[…](…)` (`call_chain_verbatim`) and a dotted name `np.log(…)` (`dotted_call_verbatim`). The
+closing bracket is appended and the token stays pending; it is emitted by the end of the input
+(`call_at_end`, after any prefix that ends at top level with nothing / an operator / a Python token
+pending) or by whatever character follows other than `(`, `[` or a string quote (`call_then`, which
+holds of the token STREAM, i.e. even if the rest of the input is rejected).
+`token_text_exact` (`Proofs/C15Exact.lean`, an invariant of all branches of the loop) strengthens
+`span_delimits_text` from "subsequence" to equality: the span and the kind determine the text.
+
+Nothing of C15 is left unproved.
 The backslash exclusion in `backtick_verbatim` is not decoration: known finding C15-F1. -/
 namespace FormulaicVerif.Props.C15
 open FormulaicVerif FormulaicVerif.Model
@@ -175,6 +187,142 @@ example : Proofs.C15Quote.qRun ['}'] 0 "f(\"}\", [1, 2])['k'] + `x`".toList = so
 example :
     tokenize ("{a\\}".toList.map (fun c => { c := c, word := c.isAlphanum, space := false })) = .error .unterminated ∧
     tokenize ("{a(}".toList.map (fun c => { c := c, word := c.isAlphanum, space := false })) = .error .unterminated := by
+  decide +kernel
+
+/-- C15.7  **Calls are verbatim.** `name` is a run of word characters (by the character-class data;
+none of them whitespace, a quote, a bracket, `%`, `{` or a backtick) at least one of which is not a
+digit or a dot; `op`/`cl` are `(`/`)` or `[`/`]`; the body leaves the quote stack `[cl]` as it found
+it (strings and nested brackets closed, escapes complete, the closer not met early). Then
+`name(body)` is ONE python token whose text is the whole fragment, character for character, spanning
+the whole fragment. -/
+theorem call_verbatim (name body : List CharInfo) (op cl : CharInfo) (c : Char)
+    (hname : Proofs.C15Call.IsName name) (hb : Proofs.C15Call.Bracket op.c c) (hcl : cl.c = c)
+    (hrun : Proofs.C15Quote.qRun [c] 0 (body.map (·.c)) = some ([c], 0)) :
+    tokenize (name ++ op :: body ++ [cl]) =
+      .ok [{ text := (name ++ op :: body ++ [cl]).map (·.c), kind := some .python, start := some 0,
+             stop := some (name.length + body.length + 1) }] :=
+  Proofs.C15Call.call_verbatim name body op cl c hname hb hcl hrun
+
+/-- C15.7a  The same for a chain of bracket groups after the name: `f(x)[0](y)` is ONE python token. -/
+theorem call_chain_verbatim (name : List CharInfo) (gs : List Proofs.C15Call.Group)
+    (hname : Proofs.C15Call.IsName name) (hgs : gs ≠ []) (hbal : ∀ g ∈ gs, g.Balanced) :
+    tokenize (name ++ Proofs.C15Call.chain gs) =
+      .ok [{ text := (name ++ Proofs.C15Call.chain gs).map (·.c), kind := some .python, start := some 0,
+             stop := some ((name ++ Proofs.C15Call.chain gs).length - 1) }] :=
+  Proofs.C15Call.call_chain_verbatim name gs hname hgs hbal
+
+/-- C15.7b  A dot is a name character wherever the character-class data say so (`[\.\_\w]`):
+`np.log(body)` is ONE python token. -/
+theorem dotted_call_verbatim (a b body : List CharInfo) (dot op cl : CharInfo) (c : Char)
+    (ha : ∀ ci ∈ a, Proofs.C15Call.NameChar ci) (hb : ∀ ci ∈ b, Proofs.C15Call.NameChar ci)
+    (hd : dot.c = '.') (hw : dot.word = true) (hsp : dot.space = false)
+    (hnn : ∃ ci ∈ a ++ b, isNumericChar ci.c = false)
+    (hbr : Proofs.C15Call.Bracket op.c c) (hcl : cl.c = c)
+    (hrun : Proofs.C15Quote.qRun [c] 0 (body.map (·.c)) = some ([c], 0)) :
+    tokenize ((a ++ dot :: b) ++ op :: body ++ [cl]) =
+      .ok [{ text := ((a ++ dot :: b) ++ op :: body ++ [cl]).map (·.c), kind := some .python, start := some 0,
+             stop := some ((a ++ dot :: b).length + body.length + 1) }] :=
+  Proofs.C15Call.dotted_call_verbatim a b body dot op cl c ha hb hd hw hsp hnn hbr hcl hrun
+
+/-- C15.7c  **A call in context, at the end of the input.** `u` is any prefix after which the lexer is
+at top level with nothing pending, or with an operator or Python token pending (`Start`). Then the
+call fragment is the LAST token, one python token with the fragment verbatim, spanning exactly the
+fragment; before it come the tokens of the prefix. -/
+theorem call_at_end (u name : List CharInfo) (gs : List Proofs.C15Call.Group) (s : LexState)
+    (hu : lexLoop u 0 {} = (s, none)) (hs : Proofs.C15Call.Start s)
+    (hname : Proofs.C15Call.IsName name) (hgs : gs ≠ []) (hbal : ∀ g ∈ gs, g.Balanced) :
+    tokenize (u ++ (name ++ Proofs.C15Call.chain gs)) =
+      .ok (s.flush.out.reverse ++ [Proofs.C15Call.callTok (name ++ Proofs.C15Call.chain gs) u.length]) :=
+  Proofs.C15Call.call_at_end u name gs s hu hs hname hgs hbal
+
+/-- C15.7d  **A call in context, followed by more input.** The closing bracket leaves the token
+pending; ANY next character other than `(`, `[` (which continue the token) and a string quote (which
+is rejected) emits it. So in the token stream of `u ++ call ++ nx :: rest` — whatever `rest` is, even
+if it makes the lexer fail later — the call token comes directly after the tokens of the prefix. -/
+theorem call_then (u name : List CharInfo) (gs : List Proofs.C15Call.Group) (nx : CharInfo)
+    (rest : List CharInfo) (s : LexState)
+    (hu : lexLoop u 0 {} = (s, none)) (hs : Proofs.C15Call.Start s)
+    (hname : Proofs.C15Call.IsName name) (hgs : gs ≠ []) (hbal : ∀ g ∈ gs, g.Balanced)
+    (hnx : Proofs.C15Call.Ender nx) :
+    ∃ ts', (tokenizeStream (u ++ (name ++ Proofs.C15Call.chain gs) ++ nx :: rest)).1 =
+      s.flush.out.reverse ++ Proofs.C15Call.callTok (name ++ Proofs.C15Call.chain gs) u.length :: ts' :=
+  Proofs.C15Call.call_then u name gs nx rest s hu hs hname hgs hbal hnx
+
+/-- the character classes used in the examples below: letters, digits, `_` and `.` are word characters -/
+def exampleClass (c : Char) : CharInfo := { c := c, word := c.isAlphanum || c == '_' || c == '.', space := c == ' ' }
+
+/-- a dotted call with a closing bracket inside a string argument, then an index: ONE token -/
+example : tokenize ("np.log(x, \"a)b\")[0]".toList.map exampleClass)
+    = .ok [{ text := "np.log(x, \"a)b\")[0]".toList, kind := some .python, start := some 0, stop := some 18 }] := by
+  decide +kernel
+
+/-- and the hypotheses of `call_chain_verbatim` hold of it: the theorem applies -/
+example : tokenize ("np.log(x, \"a)b\")[0]".toList.map exampleClass)
+    = .ok [{ text := "np.log(x, \"a)b\")[0]".toList, kind := some .python, start := some 0, stop := some 18 }] :=
+  call_chain_verbatim ("np.log".toList.map exampleClass)
+    [⟨exampleClass '(', "x, \"a)b\"".toList.map exampleClass, exampleClass ')'⟩,
+     ⟨exampleClass '[', "0".toList.map exampleClass, exampleClass ']'⟩]
+    (by decide +kernel) (by simp)
+    (by
+      intro g hg
+      simp only [List.mem_cons, List.mem_nil_iff, or_false] at hg
+      rcases hg with rfl | rfl
+      · exact ⟨')', by decide +kernel, by decide +kernel, by decide +kernel⟩
+      · exact ⟨']', by decide +kernel, by decide +kernel, by decide +kernel⟩)
+
+/-- in context: after `y ~ ` the pending token is the operator `~`; the call is emitted by the `+` -/
+example : tokenize ("y ~ f(a b)+g[1:2]".toList.map exampleClass)
+    = .ok [{ text := "y".toList, kind := some .name, start := some 0, stop := some 0 },
+           { text := "~".toList, kind := some .operator, start := some 2, stop := some 2 },
+           { text := "f(a b)".toList, kind := some .python, start := some 4, stop := some 9 },
+           { text := "+".toList, kind := some .operator, start := some 10, stop := some 10 },
+           { text := "g[1:2]".toList, kind := some .python, start := some 11, stop := some 16 }] := by
+  decide +kernel
+
+/-- the corner in the side condition on the name: digits and dots only make a `value`, after which the
+bracket is a grouping bracket of its own; but ONE other word character (`1e5`) makes it a name, and
+then `1e5(x)` is a call -/
+example :
+    tokenize ("1.5(x)".toList.map exampleClass)
+      = .ok [{ text := "1.5".toList, kind := some .value, start := some 0, stop := some 2 },
+             { text := "(".toList, kind := some .context, start := some 3, stop := some 3 },
+             { text := "x".toList, kind := some .name, start := some 4, stop := some 4 },
+             { text := ")".toList, kind := some .context, start := some 5, stop := some 5 }] ∧
+    tokenize ("1e5(x)".toList.map exampleClass)
+      = .ok [{ text := "1e5(x)".toList, kind := some .python, start := some 0, stop := some 5 }] := by
+  decide +kernel
+
+/-- the condition on the body is not decoration: an escaped closer swallows the closing bracket; and
+the condition on what follows (`Ender`) neither: a string quote directly after a call is rejected -/
+example :
+    tokenize ("f(a\\)".toList.map exampleClass) = .error .unterminated ∧
+    tokenize ("f(a)\"b\"".toList.map exampleClass) = .error (.unexpectedQuote 4) := by
+  decide +kernel
+
+/-- C15.5'  **The span determines the text** (the exact form of `span_delimits_text`). For EVERY string
+that tokenises and every token of it, with span `a … b` inside the string:
+if position `a` holds `%`, `{` or a backtick, that character opened the token and the text is exactly
+the source at `a+1 … b`; otherwise, if the token is an operator, the text is exactly the source at
+`a … b` with the whitespace characters (by the character-class data) removed; otherwise — names,
+values, Python fragments, brackets — the text is exactly the source at `a … b`. -/
+theorem token_text_exact (cs : List CharInfo) (ts : List Tok) (h : tokenize cs = .ok ts) :
+    ∀ t ∈ ts, ∃ a b, t.start = some a ∧ t.stop = some b ∧ a ≤ b ∧ b < cs.length ∧
+      let src := cs.map (·.c)
+      let quoted := src[a]? = some '%' ∨ src[a]? = some '{' ∨ src[a]? = some '`'
+      (¬quoted ∧ t.kind ≠ some .operator ∧ t.text = Proofs.C15Text.slice src a b) ∨
+      (quoted ∧ a < b ∧ t.text = Proofs.C15Text.slice src (a + 1) b) ∨
+      (¬quoted ∧ t.kind = some .operator ∧
+        t.text = ((Proofs.C15Exact.cslice cs a b).filter (fun ci => !ci.space)).map (·.c)) :=
+  Proofs.C15Exact.token_text_exact cs ts h
+
+/-- all three cases occur in one string: `y` and `f(x )` are the source at their spans, `~-` is the
+source at 2…5 without its two spaces, and `a b` is the source after the backtick at 6 -/
+example : tokenize ("y ~  -`a b`+f(x )".toList.map exampleClass)
+    = .ok [{ text := "y".toList, kind := some .name, start := some 0, stop := some 0 },
+           { text := "~-".toList, kind := some .operator, start := some 2, stop := some 5 },
+           { text := "a b".toList, kind := some .name, start := some 6, stop := some 9 },
+           { text := "+".toList, kind := some .operator, start := some 11, stop := some 11 },
+           { text := "f(x )".toList, kind := some .python, start := some 12, stop := some 16 }] := by
   decide +kernel
 
 end FormulaicVerif.Props.C15
